@@ -1,12 +1,14 @@
-(* C17 Finish refuses designs that are inconsistent with the saved system (component level).
+(* C17 Finish refuses designs that are inconsistent with the saved system (components and whole systems).
    Proved on the model of apply_design: a successful base pass means every non-empty base
    sequence takes its record's string of the right length whose reverse complement is the starred
    record; the result depends only on the records of base sequences, their starred names and
    structures (so corrupting any other record changes nothing); a changed base record, a changed
-   starred record or a missing one is refused.  Field- and byte-level corruptions go through the
+   starred record or a missing one is refused.  For a (nested) system finishing applies every leaf
+   component: a refused record of any base sequence of any instance refuses the whole run, success means every
+   instance succeeded, and records no instance looks at do not matter (C17_system_...).  Field- and byte-level corruptions go through the
    pyparsing record grammar, which is exercised by fault enumeration, not modelled. *)
 From Coq Require Import List String Ascii Arith Bool.
-From PC Require Import Base.Codes Comp.Syntax Comp.Compile Sys.System Finish.Apply Finish.ApplyProofs.
+From PC Require Import Base.Codes Comp.Syntax Comp.Compile Sys.System Finish.Apply Finish.ApplyProofs Design.SysFinish Finish.ApplySys.
 Import ListNotations.
 
 Theorem C17_ok_means_consistent : forall t prefix bs vals, base_values t prefix bs = OK vals ->
@@ -42,3 +44,19 @@ Theorem C17_missing_record_refused : forall t full b, b_len b <> 0 -> (t full = 
   exists k, base_value t full b = Err k.
 Proof. exact missing_base_record_refused. Qed.
 Print Assumptions C17_missing_record_refused.
+
+(* whole systems *)
+Theorem C17_system_ok_means_every_instance_ok : forall t f o r, apply_obj f t o = OK r ->
+  forall c, In c (leaves f o) -> exists rc, apply_comp t c = OK rc.
+Proof. exact apply_obj_ok_leaves. Qed.
+Print Assumptions C17_system_ok_means_every_instance_ok.
+
+Theorem C17_system_bad_record_refused : forall t f o c n b k, In c (leaves f o) -> In (n, b) (c_bases c) ->
+  base_value t (c_prefix c +++ n) b = Err k -> forall r, apply_obj f t o <> OK r.
+Proof. exact apply_obj_refuses. Qed.
+Print Assumptions C17_system_bad_record_refused.
+
+Theorem C17_system_irrelevant_records_do_not_matter : forall t t' f o,
+  (forall c, In c (leaves f o) -> apply_comp t c = apply_comp t' c) -> apply_obj f t o = apply_obj f t' o.
+Proof. exact apply_obj_ext. Qed.
+Print Assumptions C17_system_irrelevant_records_do_not_matter.
